@@ -437,6 +437,7 @@ class ModelExport:
             children=children,
             sources=sources,
             targets=targets,
+            meta=meta,
         )
 
     def export_region_cfg(self, node: Node) -> model.Region:
